@@ -6,7 +6,7 @@ MCInit == \E s \in Shapes : (s.kind # "toggle" => s.period > 0) /\ Init(s, 0)
 Inputs ==
     {[e |-> "tick", d |-> d] : d \in Steps}
     \cup (CASE sh.kind = "toggle" -> {[e |-> "sample", level |-> lv, acc |-> a] : lv \in BOOLEAN, a \in {"get", "on", "off", "bool"}}
-            [] sh.kind = "bd" -> {[e |-> "bget", level |-> lv] : lv \in BOOLEAN}
+            [] sh.kind = "bd" -> {[e |-> "bget", level |-> lv] : lv \in BOOLEAN} \cup {[e |-> "bdset", p |-> p] : p \in {1, 4}}
             [] sh.kind = "pf" -> {[e |-> "rec", lvl |-> x] : x \in {20, 30, 40}}
             [] sh.kind = "wd" -> {[e |-> "reset"], [e |-> "expired"], [e |-> "epoch"], [e |-> "print"],
                                   [e |-> "settimeout", t |-> 31250]})
